@@ -137,6 +137,41 @@ Theorem C08_threads_frame :
   forall (g : gst) (t t' : nat), t <> t' -> thread (tick g t) t' = thread g t'.
 Proof. exact (@threads_frame_proof). Qed.
 
+(* ------------------------------------------------------------------ histories: several calls per thread, ordinary writes in between *)
+(* an ordinary write through the hub outside any doInTransaction (Cls(...), an assignment to / destroySelf of an instance
+   loaded earlier, Cls.deleteMany) is durable at once: the committed table becomes the table with that write; while a
+   transaction holds the write lock it raises and changes nothing *)
+Theorem C08_plain_write :
+  forall (g : gst) (t n : nat) (st : bstep),
+    resolve g t = Some (CDb n) -> is_plain st = true ->
+    (g_lock g = None ->
+       plain_step g t st = (with_gcommitted g (body_table (g_committed g) [st]), body_result (g_committed g) [st])) /\
+    (forall t', g_lock g = Some t' -> plain_step g t st = (g, Raised XLocked 0)).
+Proof. exact (@plain_write_proof). Qed.
+
+(* a call in a history (htick / hrun: every thread has a list of calls and ordinary writes) IS the call of the theorems
+   above -- C08_all_or_nothing, C08_hub_restored, ... quantify over every state g in which the caller is bound and
+   not yet inside: so a later failing doInTransaction leaves the table exactly as it was before THAT call, whatever
+   calls and ordinary writes came before *)
+Theorem C08_history_call :
+  forall (h : hst) (t : nat) (r : result) (x : option txinfo) (body : list bstep) (rest : list item),
+    ts_phase (thread (h_g h) t) = PDone r x -> nth t (h_todo h) [] = ICall body :: rest ->
+    h_g (htick h t) = tick (set_thread (h_g h) t (ts_slot (thread (h_g h) t)) (PIdle body)) t.
+Proof. exact (@history_call_proof). Qed.
+
+Theorem C08_history_run :
+  forall (h : hst) (t : nat) old is_thr view cached rest k created,
+    ts_phase (thread (h_g h) t) = PRun old is_thr view cached rest k created ->
+    htick h t = {| h_g := tick (h_g h) t; h_todo := h_todo h; h_plain := h_plain h |}.
+Proof. exact (@history_run_proof). Qed.
+
+Theorem C08_history_plain :
+  forall (h : hst) (t : nat) (r : result) (x : option txinfo) (st : bstep) (rest : list item),
+    ts_phase (thread (h_g h) t) = PDone r x -> nth t (h_todo h) [] = IPlain st :: rest ->
+    h_g (htick h t) = fst (plain_step (h_g h) t st) /\
+    nth t (h_plain (htick h t)) None = (if Nat.ltb t (length (h_plain h)) then Some (snd (plain_step (h_g h) t st)) else None).
+Proof. exact (@history_plain_proof). Qed.
+
 (* ------------------------------------------------------------------ non-vacuity *)
 Definition v (z : Z) : val := Some z.
 Definition tab0 : table := {| t_rows := [(1, [v 1; v 1]); (2, [v 2; v 2])]; t_next := 3 |}.
@@ -176,6 +211,20 @@ Example C08_preloaded_only :
   ts_phase (thread g' 0) = PDone (Raised (XUser 3) 3) (Some finished) /\ g_committed g' = tab0 /\
   t_rows (body_table tab0 (firstn 3 body)) = [] /\
   t_rows (g_committed (run_sched (g_thr [firstn 3 body]) (repeat 0%nat 5))) = [].
+Proof. vm_compute. repeat split. Qed.
+
+(* a failing call, an ordinary write, another failing call: the write stays, both calls leave nothing *)
+Example C08_fail_write_fail :
+  let h := {| h_g := {| g_committed := tab0; g_lock := None; g_proc := Some (CDb 0);
+                        g_threads := [{| ts_slot := None; ts_phase := nothing_yet |}] |};
+              h_todo := [[ICall [BCreate (v 7) (v 7); BFail 0]; IPlain (BCreate (v 8) (v 8)); ICall [BWrite 3 0 (v 9); BFail 1]]];
+              h_plain := [None] |} in
+  let h' := hrun h (repeat 0%nat 9) in
+  t_rows (g_committed (h_g (hrun h (repeat 0%nat 3)))) = t_rows tab0 /\
+  t_rows (g_committed (h_g (hrun h (repeat 0%nat 4)))) = t_rows tab0 ++ [(3, [v 8; v 8])] /\
+  t_rows (g_committed (h_g h')) = t_rows tab0 ++ [(3, [v 8; v 8])] /\
+  ts_phase (thread (h_g h') 0) = PDone (Raised (XUser 1) 1) (Some finished) /\
+  h_plain h' = [Some (Return [3])] /\ resolve (h_g h') 0 = Some (CDb 0).
 Proof. vm_compute. repeat split. Qed.
 
 Example C08_body1_alone :
@@ -222,3 +271,7 @@ Print Assumptions C08_threads_isolated.
 Print Assumptions C08_threads_hub.
 Print Assumptions C08_threads_released.
 Print Assumptions C08_threads_frame.
+Print Assumptions C08_plain_write.
+Print Assumptions C08_history_call.
+Print Assumptions C08_history_run.
+Print Assumptions C08_history_plain.
